@@ -3707,7 +3707,10 @@ def _decode_signed_value_v1(
     if not hmac.compare_digest(parts[2], signature):
         gen_log.warning("Invalid cookie signature %r", value)
         return None
-    timestamp = int(parts[1])
+    try:
+        timestamp = int(parts[1])
+    except ValueError:
+        return None
     if timestamp < clock() - max_age_days * 86400:
         gen_log.warning("Expired cookie %r", value)
         return None
@@ -3778,7 +3781,10 @@ def _decode_signed_value_v2(
         return None
     if name_field != utf8(name):
         return None
-    timestamp = int(timestamp_bytes)
+    try:
+        timestamp = int(timestamp_bytes)
+    except ValueError:
+        return None
     if timestamp < clock() - max_age_days * 86400:
         # The signature has expired.
         return None
